@@ -191,6 +191,9 @@ func verifRoot() string {
 // the generators are only active while their finding is listed; remove the entry and the search
 // reports the defect as a VIOLATION again.
 func KF(id string) bool {
+	if os.Getenv("VERIF_NO_KF") != "" {
+		return false // replay of a known finding: exclusions off
+	}
 	kfOnce.Do(func() {
 		kfOpen = map[string]bool{}
 		b, err := os.ReadFile(filepath.Join(verifRoot(), "known_findings.json"))
